@@ -88,7 +88,7 @@ def ref_apply(spec, steps):
     return kwo, poso, ann
 
 
-def real_apply(f, spec, steps):
+def real_apply(f, spec, steps, trail=None):
     from sigtools import modifiers
     g = f
     for which, arg in steps:
@@ -100,6 +100,8 @@ def real_apply(f, spec, steps):
             g = modifiers.autokwoargs(exceptions=arg)(g) if arg else modifiers.autokwoargs(g)
         else:
             g = modifiers.annotate('R', **{p.name: 'ann_' + p.name for p in spec if p.kind not in (VP, VK)})(g)
+        if trail is not None and which != 'N' and g is not f:
+            trail.append((which, arg, g))
     return g
 
 
@@ -147,7 +149,20 @@ def check_orders(spec, steps, stats, enum=True):
         f = realfn.plain_function(spec, 'f', cache=False)
         desc = ' then '.join('%s%s' % ({'K': 'kwoargs', 'P': 'posoargs', 'A': 'autokwoargs(exceptions=)', 'N': 'annotate'}[w], a if a is not None else '') for w, a in perm)
         try:
-            g = real_apply(f, spec, perm)
+            trail = []
+            g = real_apply(f, spec, perm, trail)
+            # every intermediate object stays what it was when further decorators are stacked on it: observed on a second,
+            # identical build that stops there
+            for k, (which, arg, obj) in enumerate(trail[:-1]):
+                f2 = realfn.plain_function(spec, 'f', cache=False)
+                k_steps = [s for s in perm if s[0] != 'N'][:k + 1]
+                alone = real_apply(f2, spec, k_steps)
+                a, b = observe(obj, names, maxpos)['calls'], observe(alone, names, maxpos)['calls']
+                if a != b:
+                    stats.fail('C18/A/earlier-object-changed', dict(case, order=[list(s) for s in perm]),
+                               'def f(%s): after %s, the object made by the first %d modifier step(s) no longer behaves as it does on its own '
+                               '(%d of %d call outcomes differ)' % (universe.spec_text(spec), desc, k + 1, sum(x != y for x, y in zip(a, b)), len(a)))
+                    break
         except ValueError as e:
             stats.fail('C18/A/admissible-order-rejected', dict(case, order=[list(s) for s in perm]),
                        'def f(%s): applying %s raised ValueError(%s) although every step is admissible in that order' % (universe.spec_text(spec), desc, e))
@@ -334,6 +349,23 @@ def check_orders_method(spec, steps, stats):
                         break
         if not bad:
             results.append(desc)
+            # a further modifier applied to the bound object (binding used up self, possibly a name the stack converts)
+            from sigtools import modifiers
+            bound_ps = exp[1:]
+            free = [p.name for p in bound_ps if p.kind == POK]
+            if free:
+                try:
+                    again = modifiers.kwoargs(free[-1])(inst.m)
+                    got = universe.spec_from_sig(sigtools.signature(again))
+                    wantb = c12.expected(tuple(p._replace(ann=None) for p in bound_ps), {free[-1]}, set())
+                    if [(p.name, p.kind) for p in got] != [(p.name, p.kind) for p in wantb] and \
+                            sorted((p.name, p.kind) for p in got) != sorted((p.name, p.kind) for p in wantb):
+                        stats.fail('C18/A/method/bound-then-decorated', dict(case, order=[list(x) for x in perm]),
+                                   'def m(%s): %s, bound, then kwoargs(%r): advertises (%s), expected (%s)' % (
+                                       universe.spec_text(spec_m), desc, free[-1], universe.spec_text(got), universe.spec_text(wantb)))
+                except ValueError as e:
+                    stats.fail('C18/A/method/bound-then-decorated', dict(case, order=[list(x) for x in perm]),
+                               'def m(%s): %s, bound, then kwoargs(%r) raised ValueError: %s' % (universe.spec_text(spec_m), desc, free[-1], e))
     if len(results) >= 2 or any(w in ('Ks', 'Pe', 'Nr') for w, a in steps):
         stats.nontriv_enum()
         stats.sample('A/method', {'function': universe.spec_text(spec_m), 'orders': results})
